@@ -1398,7 +1398,9 @@ struct array : static_array<T, D, Alloc> {
 		} else if(this->num_elements() == other.extensions().num_elements()) {
 			reshape(other.extensions());
 			//  static_::operator=(other);
-			this->operator()() = std::forward<Range>(other);
+			if(this->num_elements() != 0) {  // an empty view can report extensions, e.g. (5, 0), that an array collapses to (0, 0)
+				this->operator()() = std::forward<Range>(other);
+			}
 		} else {
 			operator=(static_cast<array>(std::forward<Range>(other)));
 		}
@@ -1415,7 +1417,9 @@ struct array : static_array<T, D, Alloc> {
 			//  static_::operator=(other);
 		} else if(this->num_elements() == other.extensions().num_elements()) {
 			reshape(other.extensions());
-			this->operator()() = other;
+			if(this->num_elements() != 0) {  // an empty view can report extensions, e.g. (5, 0), that an array collapses to (0, 0)
+				this->operator()() = other;
+			}
 			//  static_::operator=(other);
 		} else {
 			operator=(static_cast<array>(std::forward<Range>(other)));
